@@ -378,6 +378,8 @@ def equal_as(kind, got, want):
     import functools
     if type(got) is not type(want):
         return False
+    if kind == 'builtin':
+        return got == want or (got != got and want != want)
     if kind == 'partial':
         return (got.func is want.func and got.args == want.args and
                 got.keywords == want.keywords)
@@ -460,6 +462,18 @@ class StdlibCase(pfbase.CfgCase):
         return True
 
 
+# built-in values, one per branch of the bundled built-in printers (totality half)
+BUILTIN_TOTAL = [
+    'set()', '{1}', '{1, 2}', "{'only'}", '{(1, 2)}', 'frozenset()', 'frozenset([1])', 'frozenset([1, 2])',
+    '()', '(1,)', '(1, 2)', '[]', '[1]', '[[1]]', '[{1}]', '[frozenset([1])]', '({1},)', "{'k': {1}}",
+    '{}', '{1: 2}', '{1: 2, 3: 4}', '{1: 2, 3: 4, 5: 6}', '{(1,): [2]}', '{frozenset([1]): {2}}',
+    "''", "b''", "'two words'", "b'two words'", "'%s'" % ('word ' * 30), "b'%s'" % ('word ' * 30),
+    '0', '-1', '10**30', 'True', 'None', '0.0', '-0.0', '1e300', "float('inf')", "float('-inf')", "float('nan')",
+    'list(range(60))', 'tuple(range(60))', 'set(range(60))', 'frozenset(range(60))', 'dict.fromkeys(range(60))',
+    '[[], (), {}, set(), frozenset()]', "[{1}, {2}, [{3}]]", '{1: {2: {3: {4}}}}',
+]
+
+
 FAMILIES = {
     'timedelta': base.Family('timedelta', h_td, h_td_twin, TimedeltaCase, _install),
     'dtrecord': base.Family('dtrecord', h_dt, h_dt_twin, DtRecordCase, _install),
@@ -499,6 +513,14 @@ def cases(tier, seed):
                 out.append({'name': 'std:%s:%s|%s|ribbon' % (kind, src[:50], c), 'family': 'stdlib',
                             'params': {'value': src, 'kind': kind, 'context': c, 'slice': 'ribbon'},
                             'budget': 200.0})
+    for j, src in enumerate(BUILTIN_TOTAL):
+        out.append({'name': 'builtin:%s|default' % src[:40], 'family': 'stdlib',
+                    'params': {'value': src, 'kind': 'builtin', 'context': 'top', 'slice': 'default'},
+                    'budget': 60.0})
+        if tier == 'thorough' or j % 4 == 1:
+            out.append({'name': 'builtin:%s|page' % src[:40], 'family': 'stdlib',
+                        'params': {'value': src, 'kind': 'builtin', 'context': ctxs[j % len(ctxs)], 'slice': 'page'},
+                        'budget': 60.0 if tier == 'quick' else 200.0, 'path_timeout': 30.0})
     return out
 
 
@@ -513,6 +535,7 @@ def evidence(tier, seed, tasks, results):
                 'timedelta': 'days -999999999..999999999, seconds 0..86399, microseconds 0..999999: all symbolic, full range',
                 'datetime/time/date records': 'year 1..9999, month 1..12, day 1..31, hour, minute, second, microsecond full ranges, fold 0..1, tzinfo present/absent: all symbolic',
                 'stdlib instances': kinds,
+                'built-in values (totality)': len(BUILTIN_TOTAL),
                 'contexts': list(CONTEXTS),
                 'width': '1..200 symbolic (page slice)' + ('; ribbon slice at top level' if tier == 'thorough' else ''),
             },
